@@ -182,6 +182,17 @@ class C02:
                       and self._derives_from(x[1], wobj, ws)]
             # results of conversions bound to a local (e.g. `prediction = adapter.to_aoef(..); prediction.uuid`) are fine
             bypass = [x for x in bypass if not any(x[1] == c[1] for c in convs) and not self._is_conv_alias(x[1], convs)]
+
+            def through_pairs(t_):
+                """elem(L)[k] where L iterates a list of tuples built by a comprehension: the k-th component of those tuples"""
+                if t_[0] == "sub" and t_[1][0] == "elem" and t_[2][0] == "const" and isinstance(t_[2][1], int) and t_[1][1] in ws.loops:
+                    it_ = ws.loops[t_[1][1]].iter
+                    while it_[0] == "call" and it_[1] in (("builtin", "list"), ("builtin", "tuple")) and len(it_[2]) == 1:
+                        it_ = it_[2][0]
+                    if it_[0] == "comp" and it_[2][0] == "tuple" and 0 <= t_[2][1] < len(it_[2][1]):
+                        return it_[2][1][t_[2][1]]
+                return t_
+            bypass = [x for x in bypass if not (self.ao.method_call(through_pairs(x[1])) and self.ao.method_call(through_pairs(x[1]))[1] == "to_aoef")]
             if bypass:
                 ctx.bad("R02.2", file, func, f"{O.name}({g}={show(bypass[0])[:60]})",
                         f"reference {O.name}.{g} is taken directly from the object ({show(bypass[0])[:60]}) instead of "
@@ -253,6 +264,14 @@ class C02:
                     continue  # C18
                 want = leaf.init_param_cls.get(p)
                 src = self.ao.self_attr(a)
+                if src is None:
+                    # the object itself instead of the attribute it was stored in (a helper that builds the shared adapters and hands
+                    # them out as a record): the same value as one of the wires, every constructor in it evaluated exactly once
+                    same = [o_attr for o_attr, ow in col.wires.items() if ow.value == a and o_attr != attr]
+                    ctor_calls = [x for x in walk(a) if x[0] == "call" and x[1][0] == "global" and x[1][2] == "class"]
+                    once = w.summ is not None and all(sum(1 for e_ in w.summ.calls if e_.term == c_) == 1 for c_ in ctor_calls)
+                    if same and once:
+                        src = same[0]
                 if src is None:
                     ctx.bad("R02.3", file, func, f"self.{attr} = {w.cls.name}({p}={show(a)[:50]})",
                             f"sub-adapter self.{attr} is constructed with {show(a)[:50]} instead of one of the collection's "
@@ -463,8 +482,22 @@ class C02:
                     cqual = qual
                     if ci is not None:
                         cqual = ctx.index.canonical_qual("class", ci.qual) + "." + qual.split(".")[-1]
+                    helper_ok = False
+                    mname = cqual.split(".")[-1]
+                    if cqual.startswith(DATA_ADAPTER + "._") and not mname.startswith("__") and ci is not None:
+                        # a private helper of DataAdapter itself: it writes on behalf of the methods that call it
+                        callers = set()
+                        for cj in ctx.index.all_classes():
+                            for mn2, fns2 in cj.methods.items():
+                                for fn2 in fns2:
+                                    if any(isinstance(x, ast.Call) and isinstance(x.func, ast.Attribute) and x.func.attr == mname
+                                           and isinstance(x.func.value, ast.Name) and x.func.value.id in ("self", "cls") for x in ast.walk(fn2)):
+                                        callers.add(ctx.index.canonical_qual("class", cj.qual) + "." + mn2)
+                        helper_ok = bool(callers) and callers <= allowed
                     if cqual in allowed:
                         ctx.ok("R02.6", site, f"write to {hit} inside DataAdapter")
+                    elif helper_ok:
+                        ctx.ok("R02.6", site, f"write to {hit} in a private helper of DataAdapter called only from its registration methods")
                     else:
                         ctx.bad("R02.6", mod.relpath, qual.split(":")[1], f"write to {hit}: {show(e.term)[:80]}",
                                 f"lookup table {hit} is written outside DataAdapter.{{__init__,to_aoef,to_soundevent,get_id}}: "
